@@ -16,7 +16,9 @@ RULE = ("(a) all strings up to the tier's length over {a C : / \\ # . f i l e} t
         "relative path, file: URL, named file object) for schemas and configurations, %include / schema src / extends "
         "references relative to the containing resource with decoy files of the same relative name elsewhere, reused loader "
         "objects across chdir; fragments rejected; names with a blank at their very start / very end (after the extension) beside a "
-        "neighbour without it, references spelled by pathname2url / literally / mixed; names that are special AS A WHOLE to a shell / "
+        "neighbour without it, references spelled by pathname2url / literally / mixed / literally with the blanks INSIDE an %include argument "
+        "and a src attribute written raw too ('%include conf d/site local.conf' names one file; the resources named by the blank-separated "
+        "pieces exist as decoys); names that are special AS A WHOLE to a shell / "
         "a command line / os.path conveniences / a pattern matcher and ordinary here ('~', '~<login name of this machine>', '~+', '-', "
         "'-x', '...', '[]', '[!a]', '&&', every character of the alphabet alone ...) as directory AND as file name, 3 levels deep, "
         "from current directories that make the name the first / a middle / the last segment of the relative path or all of it, 4 entry "
@@ -52,31 +54,67 @@ def rand_name(rng, ext):
     raise RuntimeError("name space exhausted")
 
 
-REFMODES = ("quoted", "literal", "mixed")
+REFMODES = ("quoted", "literal", "mixed", "raw-blank")
 ROOTNAMES = ["tree", " tree", "tree x", "[tree]", "tree~1", "tree ", "t[1]ree;+&"]      # the root of a scratch tree: seen in every absolute path, and in the relative ones from outside
 _UNRESERVED = set("abcdefghijklmnopqrstuvwxyzABCDEFGHIJKLMNOPQRSTUVWXYZ0123456789-_.~")
 
 
-def spell(path, mode, rng=None):
+def spell(path, mode, rng=None, carrier="include"):
     """a relative URL reference that names the relative path `path` (components joined by '/').
     quoted  = urllib's pathname2url (everything but letters, digits and - _ . ~ percent-escaped);
     literal = every character of the alphabet written as it is: these characters have no URL meaning, so the reference
               'part[1].conf' names the file 'part[1].conf'.  Only the blank stays %20: white space belongs to the SYNTAX that
               carries the reference (trimmed around an %include argument and a src attribute, separator inside extends);
-    mixed   = per character literal or escaped (now and then also a letter as %41)"""
+    mixed   = per character literal or escaped (now and then also a letter as %41);
+    raw-blank = literal, and the blank written as it is too wherever the carrying syntax leaves it alone: INSIDE an %include
+              argument and inside a src attribute ('%include site local.conf' names the one file 'site local.conf', 'conf d/x y'
+              the file 'x y' in the directory 'conf d').  The blanks at the very start / very end of the reference (trimmed by
+              those carriers) and every blank of an extends reference (its separator) stay %20."""
     if mode == "quoted":
         return urllib.request.pathname2url(path)
+    lead = len(path) - len(path.lstrip(" "))
+    inner_end = len(path.rstrip(" "))
+    rawblank = mode == "raw-blank" and carrier != "extends"
     out = []
-    for ch in path:
+    for i, ch in enumerate(path):
         if ch == "/":
             out.append(ch)
         elif ch == " ":
-            out.append("%20")
-        elif mode == "literal" or rng.random() < (0.9 if ch in _UNRESERVED else 0.5):
+            out.append(" " if rawblank and lead <= i < inner_end else "%20")
+        elif mode in ("literal", "raw-blank") or rng.random() < (0.9 if ch in _UNRESERVED else 0.5):
             out.append(ch)
         else:
             out.append("".join("%%%02X" % b for b in ch.encode("utf-8")))
     return "".join(out)
+
+
+def add_piece_decoys(dirpath, ref, text):
+    """a reference with blanks written raw names ONE resource; give the resources that its blank-separated pieces would name
+    (relative to the directory of the referrer) something else to hold, unless a file or directory of that name is there
+    already: a reference taken apart at its blanks then reads other files instead of failing.  Nothing is written outside
+    dirpath.  Returns the number of files made."""
+    pieces = ref.split()
+    made = 0
+    if len(pieces) < 2:
+        return 0
+    for n, pc in enumerate(pieces):
+        rel = urllib.request.url2pathname(pc)
+        comps = rel.split("/")
+        if rel.startswith("/") or rel.endswith("/") or not all(comps) or any(c in (".", "..") for c in comps):
+            continue
+        q = os.path.join(dirpath, *comps)
+        try:
+            if not os.path.lexists(q):
+                os.makedirs(os.path.dirname(q), exist_ok=True)
+                _w(q, text % {"n": n})
+                made += 1
+        except OSError:
+            pass
+    return made
+
+
+PIECE_CONF = "k PIECE-%(n)d\n"
+PIECE_SCHEMA = "<schema><sectiontype name='piece-%(n)d'/></schema>"
 
 
 def build_tree(rng, root, refmode="quoted"):
@@ -98,31 +136,34 @@ def build_tree(rng, root, refmode="quoted"):
     w(os.path.join(root, d2, basen), "<schema><key name='who' default='decoy'/></schema>")
     def q(relpath):
         return spell(relpath, refmode, rng)
-    w(os.path.join(lib, midn), "<schema extends=%s><key name='mid' default='m'/></schema>" % _qa(q(d2 + "/" + basen)))
-    w(os.path.join(root, topn), "<schema extends=%s><multikey name='k'/><key name='inc'/></schema>" % _qa(q(d1 + "/" + midn)))
+    def qx(relpath):
+        return spell(relpath, refmode, rng, "extends")
+    w(os.path.join(lib, midn), "<schema extends=%s><key name='mid' default='m'/></schema>" % _qa(qx(d2 + "/" + basen)))
+    w(os.path.join(root, topn), "<schema extends=%s><multikey name='k'/><key name='inc'/></schema>" % _qa(qx(d1 + "/" + midn)))
     # configuration: main (root) includes a (lib) which includes b (lib/deep); decoys of b's relative name in root
     an, bn, mainn = rand_name(rng, ".conf"), rand_name(rng, ".conf"), rand_name(rng, ".conf")
     w(os.path.join(deep, bn), "k from-b\n")
     w(os.path.join(root, d2, bn), "k DECOY\n")
-    w(os.path.join(lib, an), "k from-a\n%include " + q(d2 + "/" + bn) + "\n")
-    w(os.path.join(root, mainn), "k from-main\n%include " + q(d1 + "/" + an) + "\ninc done\n")
+    ref_b, ref_a = q(d2 + "/" + bn), q(d1 + "/" + an)
+    w(os.path.join(lib, an), "k from-a\n%include " + ref_b + "\n")
+    w(os.path.join(root, mainn), "k from-main\n%include " + ref_a + "\ninc done\n")
     # references carrying a fragment identifier, at the top of a chain and one level down: all must be rejected
     fa, fm1, fm2 = rand_name(rng, "-fa.conf"), rand_name(rng, "-f1.conf"), rand_name(rng, "-f2.conf")   # distinct from an / bn / mainn
     w(os.path.join(lib, fa), "k from-fa\n%include " + q(d2 + "/" + bn) + "#part-2\n")
     w(os.path.join(root, fm1), "k from-main\n%include " + q(d1 + "/" + an) + "#sec\ninc done\n")
     w(os.path.join(root, fm2), "k from-main\n%include " + q(d1 + "/" + fa) + "\ninc done\n")
     fs1, fs2, fmid = rand_name(rng, "-s1.xml"), rand_name(rng, "-s2.xml"), rand_name(rng, "-fm.xml")
-    w(os.path.join(root, fs1), "<schema extends=%s><multikey name='k'/><key name='inc'/></schema>" % _qa(q(d1 + "/" + midn) + "#x"))
+    w(os.path.join(root, fs1), "<schema extends=%s><multikey name='k'/><key name='inc'/></schema>" % _qa(qx(d1 + "/" + midn) + "#x"))
     w(os.path.join(lib, fmid), "<schema><import src=%s/><key name='mid' default='m'/></schema>" % _qa(q(d2 + "/" + basen) + "#types"))
-    w(os.path.join(root, fs2), "<schema extends=%s><multikey name='k'/><key name='inc'/></schema>" % _qa(q(d1 + "/" + fmid)))
+    w(os.path.join(root, fs2), "<schema extends=%s><multikey name='k'/><key name='inc'/></schema>" % _qa(qx(d1 + "/" + fmid)))
     # several bases, the fragment on the first, on the last, in the middle: every position must be rejected
     obn = rand_name(rng, "-ob.xml")
     w(os.path.join(root, obn), "<schema><key name='otherbasekey'/></schema>")
     ob2 = rand_name(rng, "-ob2.xml")
     w(os.path.join(root, ob2), "<schema><key name='otherbasekey2'/></schema>")
     multi = []
-    for i, ext in enumerate([q(d1 + "/" + midn) + " " + q(obn) + "#x", q(obn) + " " + q(d1 + "/" + midn) + "#x", q(obn) + "#x " + q(d1 + "/" + midn),
-                             q(obn) + " " + q(ob2) + "#mid " + q(d1 + "/" + midn)]):
+    for i, ext in enumerate([qx(d1 + "/" + midn) + " " + qx(obn) + "#x", qx(obn) + " " + qx(d1 + "/" + midn) + "#x", qx(obn) + "#x " + qx(d1 + "/" + midn),
+                             qx(obn) + " " + qx(ob2) + "#mid " + qx(d1 + "/" + midn)]):
         fsn = rand_name(rng, "-s%d.xml" % (3 + i))
         w(os.path.join(root, fsn), "<schema extends=%s><multikey name='k'/><key name='inc'/></schema>" % _qa(ext))
         multi.append(os.path.join(root, fsn))
@@ -130,7 +171,8 @@ def build_tree(rng, root, refmode="quoted"):
     tyn = "ty pes \u00e9" + rand_name(rng, ".xml")
     impn = rand_name(rng, "-imp.xml")
     w(os.path.join(lib, tyn), "<schema><sectiontype name='imported'><key name='ik' default='from-import'/></sectiontype></schema>")
-    w(os.path.join(lib, impn), "<schema><import src=%s/><section type='imported' name='*' attribute='imp'/></schema>" % _qa(q(tyn)))
+    ref_ty = q(tyn)
+    w(os.path.join(lib, impn), "<schema><import src=%s/><section type='imported' name='*' attribute='imp'/></schema>" % _qa(ref_ty))
     # a configuration reached through a symbolic link: references in it resolve against the NAME it was given by (all
     # four entry points alike), not against the link's target
     store, site = os.path.join(root, "store" + rand_name(rng, "")), os.path.join(root, "site" + rand_name(rng, ""))
@@ -141,7 +183,12 @@ def build_tree(rng, root, refmode="quoted"):
     w(os.path.join(store, pn), "k part-next-to-target\n")
     w(os.path.join(site, pn), "k part-next-to-link\n")
     os.symlink(os.path.join(store, "real-" + ln), os.path.join(site, ln))
-    return {"schema": os.path.join(root, topn), "config": os.path.join(root, mainn), "dirs": [root, lib, deep, os.path.dirname(root)],
+    # %include / src references with blanks written raw: the resources named by the blank-separated pieces hold something else
+    raw_refs = [r for r in (ref_a, ref_b, ref_ty) if " " in r]
+    pieces = add_piece_decoys(root, ref_a, PIECE_CONF) + add_piece_decoys(lib, ref_b, PIECE_CONF) + add_piece_decoys(lib, ref_ty, PIECE_SCHEMA)
+    return {"raw_blank_refs": len(raw_refs), "piece_decoys": pieces,
+            "include_refs": {"spelling": refmode, os.path.relpath(os.path.join(root, mainn), root): "%include " + ref_a,
+                             os.path.relpath(os.path.join(lib, an), root): "%include " + ref_b}, "schema": os.path.join(root, topn), "config": os.path.join(root, mainn), "dirs": [root, lib, deep, os.path.dirname(root)],
             "expect_k": ["from-main", "from-a", "from-b"],
             "import_schema": os.path.join(lib, impn), "same_rel": (d2 + "/" + basen, d2 + "/" + bn, root, lib),
             "linked_config": os.path.join(site, ln), "linked_expect": ["from-linked", "part-next-to-link", "done"],
@@ -209,9 +256,20 @@ def build_sweep(rng, root):
     _w(os.path.join(root, "base.xml"), "<schema><key name='who' default='WRONG-BASE'/></schema>")
     referrers = {}
     for mode in REFMODES:
-        refs = {k: [spell(os.path.basename(it["dir"]) + "/" + it[k], mode, rng) for it in items] for k in ("leaf", "comp", "base")}
+        refs = {k: [spell(os.path.basename(it["dir"]) + "/" + it[k], mode, rng, CARRIER[k]) for it in items] for k in ("leaf", "comp", "base")}
         referrers[mode] = {"refs": refs, "files": write_referrers(root, "all-" + mode, refs, items)}
-    return {"items": items, "referrers": referrers}
+    pieces = sum(add_piece_decoys(root, r, PIECE_CONF) for r in referrers["raw-blank"]["refs"]["leaf"]) + \
+        sum(add_piece_decoys(root, r, PIECE_SCHEMA) for r in referrers["raw-blank"]["refs"]["comp"])
+    return {"items": items, "referrers": referrers, "piece_decoys": pieces}
+
+
+TARGET = {"include": "leaf", "import-src": "comp", "extends": "base"}
+CARRIER = {"leaf": "include", "comp": "import-src", "base": "extends"}
+
+
+def raw_blanks(refs):
+    """how many of the references have a blank written raw"""
+    return sum(1 for r in refs if " " in r)
 
 
 def write_referrers(dirpath, stem, refs, items):
@@ -289,6 +347,7 @@ def _observe_refs(ZConfig, kind, way, arg, items, sch_k):
 def run_sweep(ctx, ZConfig, root, outside):
     sw = build_sweep(ctx.rng, root)
     ctx.count("sweep:neighbour-files", add_neighbours(root))
+    ctx.count("sweep:raw-blank-piece-decoys", sw["piece_decoys"])
     sch_k = ZConfig.loadSchemaFile(io.StringIO("<schema><multikey name='k'/><key name='inc'/></schema>"))
     items = sw["items"]
     # (1) files named that way as TOP resources, through every entry point, from the root / their own directory / outside
@@ -331,6 +390,7 @@ def run_sweep(ctx, ZConfig, root, outside):
                         continue
                     ctx.evaluations += 1
                     ctx.count("sweep:reference:%s:%s" % (kind, mode), len(items))
+                    ctx.count("sweep:reference-with-a-raw-blank:" + kind, raw_blanks(ref["refs"][TARGET[kind]]))
                     ctx.nontriv(("sweep-ref", mode, kind, cwd == root, cwd == outside, way))
                     got = _observe_refs(ZConfig, kind, way, arg, items, sch_k)
                     if got == want:
@@ -414,15 +474,19 @@ def build_whole(rng, root):
         for mode in REFMODES:
             selfrefs[mode] = os.path.join(dd, "ref-%s.conf" % mode)
             _w(selfrefs[mode], "k ref\n%%include %s\n" % spell(name, mode, rng))
+            if " " in spell(name, "raw-blank"):
+                add_piece_decoys(dd, spell(name, "raw-blank"), PIECE_CONF)
         items.append({"i": i, "name": name, "tag": tag, "dir": d, "deep": dd, "sdir": ds, "leaf": "lf.conf", "comp": "ty.xml", "base": "bs.xml",
                       "selfrefs": selfrefs})
     _w(os.path.join(wn, "part.conf"), "inc WRONG-BASE\n")
     _w(os.path.join(wn, "base.xml"), "<schema><key name='who' default='WRONG-BASE'/></schema>")
     referrers = {}
     for mode in REFMODES:
-        refs = {k: [spell(it["name"] + "/" + it[k], mode, rng) for it in items] for k in ("leaf", "comp", "base")}
+        refs = {k: [spell(it["name"] + "/" + it[k], mode, rng, CARRIER[k]) for it in items] for k in ("leaf", "comp", "base")}
         referrers[mode] = {"refs": refs, "files": write_referrers(wn, "all-" + mode, refs, items)}
-    return {"container": wn, "items": items, "referrers": referrers}
+    pieces = sum(add_piece_decoys(wn, r, PIECE_CONF) for r in referrers["raw-blank"]["refs"]["leaf"]) + \
+        sum(add_piece_decoys(wn, r, PIECE_SCHEMA) for r in referrers["raw-blank"]["refs"]["comp"])
+    return {"container": wn, "items": items, "referrers": referrers, "piece_decoys": pieces}
 
 
 def run_whole(ctx, ZConfig, root, outside):
@@ -476,6 +540,8 @@ def run_whole(ctx, ZConfig, root, outside):
                         continue
                     ctx.evaluations += 1
                     ctx.count("whole-name:reference-is-the-name:" + mode)
+                    if mode == "raw-blank" and " " in spell(it["name"], mode):
+                        ctx.count("whole-name:reference-is-the-name:with-a-raw-blank")
                     ctx.nontriv(("whole-selfref", it["i"], mode, cwd == wn, way))
                     try:
                         r = _load(ZConfig, "config", way, arg, sch_k)
@@ -490,7 +556,7 @@ def run_whole(ctx, ZConfig, root, outside):
                             signature="C18:whole-name-reference:include:%s:%s" % (mode, "exc" if isinstance(got, str) else "wrong-resource"))
     # directories of those names in %include / <import src> / extends references, per spelling
     want = [it["tag"] for it in items]
-    target = {"include": "leaf", "import-src": "comp", "extends": "base"}
+    target = TARGET
     for mode in REFMODES:
         ref = wh["referrers"][mode]
         for kind, pth in sorted(ref["files"].items()):
@@ -501,6 +567,7 @@ def run_whole(ctx, ZConfig, root, outside):
                         continue
                     ctx.evaluations += 1
                     ctx.count("whole-name:reference:%s:%s" % (kind, mode), len(items))
+                    ctx.count("whole-name:reference-with-a-raw-blank:" + kind, raw_blanks(ref["refs"][TARGET[kind]]))
                     ctx.nontriv(("whole-ref", mode, kind, cwd == outside, way))
                     got = _observe_refs(ZConfig, kind, way, arg, items, sch_k)
                     if got == want:
@@ -644,6 +711,8 @@ def run(ctx):
             refmode = REFMODES[ti % len(REFMODES)]
             ctx.count("tree:references-" + refmode)
             t = build_tree(ctx.rng, root, refmode)
+            ctx.count("tree:references-with-a-raw-blank", t["raw_blank_refs"])
+            ctx.count("tree:raw-blank-piece-decoys", t["piece_decoys"])
             if ti < nwhole:
                 # names that are special as a whole ('~', '~<login name>', '-', '[]', ...): in the container root/wn
                 run_whole(ctx, ZConfig, root, os.path.dirname(root))
@@ -698,7 +767,8 @@ def run(ctx):
                             got = "EXC:%s:%s" % (type(e).__name__, str(e)[:80])
                         if got != t["expect_k"] + ["done"]:
                             ctx.violate("configuration loaded by %s from cwd %r gives %r" % (cway, cwd, got),
-                                        {"tree": _listing(root), "cwd": cwd, "way": cway, "arg": carg, "got": got, "expected": t["expect_k"]},
+                                        {"tree": _listing(root), "cwd": cwd, "way": cway, "arg": carg, "got": got, "expected": t["expect_k"],
+                                         "references": t["include_refs"]},
                                         signature="C18:config:%s:%s" % (cway, "exc" if isinstance(got, str) else "wrong-resource"))
             # <import src> with percent-escapes: same schema through all four entry points
             for cwd in t["dirs"]:
